@@ -366,8 +366,7 @@ Section OneTok.
   Variable g : grammar.
   Variable toks : PositiveMap.t ptok.
   Variable rx : list (N * N).
-  Hypothesis Hgap : forall i t, get toks i = Some t -> gapb t = true -> gap_ok_b g t = true.
-  Hypothesis Hrx : forall rid i t, get toks i = Some t -> gapb t = true -> rxhit rid i rx = false.
+  Hypothesis Hrx : forall rid i t, get toks i = Some t -> okgap g t -> rxhit rid i rx = false.
 
   Lemma tok_inv len i t : tok toks len i = ROk t -> i < len /\ get toks i = Some t.
   Proof.
@@ -375,12 +374,10 @@ Section OneTok.
     destruct (get toks i); [|discriminate]. intro H. inversion H; subst. auto.
   Qed.
 
-  Lemma sig_of_not_gap t : gapb t = false -> sigb t = true.
-  Proof. unfold gapb. intro H. apply negb_false_iff in H. exact H. Qed.
-
+  (** a token accepted by a single-token matcher is not one of the replaceable gap tokens *)
   Lemma onetok_sound f : forall n, onetok_b g f n = true ->
     forall fuel idx len terms m, match_node g toks rx fuel n idx len terms = ROk m -> has_match m = true ->
-    mr_end m = idx + 1 /\ exists t, get toks idx = Some t /\ sigb t = true.
+    mr_end m = idx + 1 /\ exists t, get toks idx = Some t /\ ~ okgap g t.
   Proof.
     induction f as [|f IH]; intros n Hn fuel idx len terms m H Hm;
       (destruct fuel as [|fuel]; [discriminate|]); cbn [match_node] in H; unfold match_node_body, info in H;
@@ -391,19 +388,16 @@ Section OneTok.
     all: inv_bind H; apply tok_inv in Ha; destruct Ha as [Hlt Ht].
     all: match type of H with (if ?b then _ else _) = _ => destruct b eqn:Eb end;
       inversion H; subst; try (unfold empty_at in Hm; rewrite has_match_empty_at in Hm; discriminate);
-      (split; [reflexivity|]); exists a; (split; [exact Ht|]).
-    (* O: GString GMulti GTyped GRegex; S: the same *)
-    all: try (apply andb_true_iff in Eb as [Ec _]; unfold sigb; rewrite Ec; reflexivity).
-    all: apply sig_of_not_gap; destruct (gapb a) eqn:Eg; [exfalso|reflexivity].
-    all: try (pose proof (Hgap _ _ Ht Eg) as Hk;
-              destruct (okgap_info g a n i (conj Eg Hk) Ei) as [_ Hkf]; unfold kind_free_for in Hkf;
+      (split; [reflexivity|]); exists a; (split; [exact Ht|]); intro Hk.
+    all: try (apply andb_true_iff in Eb as [Ec _]; rewrite (okgap_code g a Hk) in Ec; discriminate).
+    all: try (destruct (okgap_info g a n i Hk Ei) as [_ Hkf]; unfold kind_free_for in Hkf;
               rewrite En in Hkf; rewrite Eb in Hkf; discriminate).
     all: change (existsb (fun p => (fst p =? rid) && (snd p =? idx)) rx) with (rxhit rid idx rx) in Eb;
-      rewrite (Hrx rid idx a Ht Eg) in Eb; discriminate.
+      rewrite (Hrx rid idx a Ht Hk) in Eb; discriminate.
   Qed.
 
   Theorem match_node_onetok fuel n idx len terms m :
     onetok g n = true -> match_node g toks rx fuel n idx len terms = ROk m -> has_match m = true ->
-    mr_end m = idx + 1 /\ exists t, get toks idx = Some t /\ sigb t = true.
+    mr_end m = idx + 1 /\ exists t, get toks idx = Some t /\ ~ okgap g t.
   Proof. intro H. exact (onetok_sound 4 n H fuel idx len terms m). Qed.
 End OneTok.
